@@ -4,7 +4,7 @@ C12 — a file whose timestamp differs from the cached one is parsed again.
 -/
 namespace Holpy.C12
 
-variable (W : World) (L : Lib)
+variable (W : World) (L : Lib) (U : Used)
 
 theorem parseAll_fst (P : Item → List Item → PRes) :
     ∀ (items ctx : List Item) (c : List (Item × PRes)), parseAll P ctx items = some c → c.map (·.1) = items := by
@@ -70,8 +70,8 @@ theorem loopDeps_names (rec : Name → State → R) :
         · rw [if_neg hx]
           intro h; simp at h
 
-theorem ltcBody_reread {fault : Option Item} {rec : Call → State → R} (hrec : RecOk W L fault rec) (n : Name) (e : Entry)
-    {s : State} (hi : Inv W L s) (he : s.entry n = some e) (hch : e.stamp ≠ some (s.files n).mtime)
+theorem ltcBody_reread {fault : Option Item} {rec : Call → State → R} (hrec : RecOk W L U fault rec) (n : Name) (e : Entry)
+    {s : State} (hi : Inv W L U s) (he : s.entry n = some e) (hch : e.stamp ≠ some (s.files n).mtime)
     (hok : (ltcBody W fault rec n s).1 = none) :
     ∃ e', (ltcBody W fault rec n s).2.entry n = some e' ∧ e'.stamp = some (s.files n).mtime ∧
       e'.content.map (·.1) = (s.files n).items ∧ Event.readFile n ∈ (ltcBody W fault rec n s).2.log ∧
@@ -89,7 +89,7 @@ theorem ltcBody_reread {fault : Option Item} {rec : Call → State → R} (hrec 
   rw [hbody] at hok ⊢
   revert hok
   unfold ltcMiss
-  obtain ⟨hl1, _, _⟩ := lazyStep_post W L hrec n hi
+  obtain ⟨hl1, _, _⟩ := lazyStep_post W L U hrec n hi
   rcases hls : lazyStep W rec n s with ⟨r1, s1⟩
   rw [hls] at hl1
   simp only [] at hl1
@@ -102,12 +102,12 @@ theorem ltcBody_reread {fault : Option Item} {rec : Call → State → R} (hrec 
     | none => intro hok; simp at hok
     | some order =>
       simp only []
-      have hipush : Inv W L s1.push := hl1.inv.of_sameCore (sameCore_push s1)
-      have hloop := loopDeps_post W L (fun p s => rec (.ltc p) s) (fun p s hs => hrec (.ltc p) s hs) order s1.push [] hipush
+      have hipush : Inv W L U s1.push := hl1.inv.of_sameCore (sameCore_push s1)
+      have hloop := loopDeps_post W L U (fun p s => rec (.ltc p) s) (fun p s hs => hrec (.ltc p) s hs) order s1.push [] hipush
       have hnames := loopDeps_names W (fun p s => rec (.ltc p) s) order s1.push []
       have hordL : L.order e.imports = some order := by
         obtain ⟨T1, hT1⟩ := Option.isSome_iff_exists.mp hc1
-        rw [← order_eq W L hl1.inv hT1]; exact hord
+        rw [← order_eq W L U hl1.inv hT1]; exact hord
       rcases hlp : loopDeps W (fun p s => rec (.ltc p) s) order s1.push [] with ⟨r2, s2, deps⟩
       rw [hlp] at hloop hnames
       obtain ⟨hr2, _, _⟩ := hloop
